@@ -330,7 +330,7 @@ def check_tree(tree, res):
     # the value must depend on t itself: evaluate the same object at several times in sequence (caches persist)
     if tdep:
         z = None if dims == {2} else ARGS[1]["z"]
-        for t in (-1.0, -2.0, 0.0, 1e-9, 0.7):
+        for t in (-1.0, -2.0, 0.0, 1e-9, 0.7, 1000.001, 1000.002, 1.0000001, 1.0000002, 0.7 + 2**-50, 1e300, 5e-324):
             try:
                 want = ref_eval(tree, ARGS[1]["x"], ARGS[1]["y"], z, t)
             except Exception:  # noqa: BLE001
